@@ -40,7 +40,7 @@ m = {
     "engines": [{
         "name": "lean4-proof+correspondence", "path": "/verif/run.py",
         "serves_properties": [c["property_id"] for c in checks],
-        "kind_free_text": "Lean 4 kernel-checked theorems about an executable model (lean/X86Model), tied to /repo on every run by a source translator (translator/extract.py -> lean/X86Model/Generated) and a Rust correspondence harness (harness/) that drives the real crate and the compiled Lean model on the same cases",
+        "kind_free_text": "Lean 4 kernel-checked theorems about an executable model (lean/X86Model), tied to /repo on every run by source translators (translator/extract.py -> lean/X86Model/Generated: constant/IDT/asm! tables and, for the pure integer layer, a function translator whose output is proved equal to the models) and a Rust correspondence harness (harness/) that drives the real crate, the compiled Lean model and the generated definitions on the same cases",
     }],
     "checks": checks,
     "not_applicable": na,
